@@ -74,3 +74,39 @@ package connlimiter
 //@   requires LL(l) && mytok > 0
 //@   modifies l.isClosed, l.counter.*, tok, mytok
 //@   ensures  mytok == old(mytok) - 1
+
+//@ func (*limitListener).Accept
+//@   property C18
+//@   requires LL(l) && mytok >= 0
+//@   modifies l.isClosed, l.counter.*, tok, mytok
+//@   ensures  no-token-on-error: err != nil ==> mytok == old(mytok)
+//@   ensures  one-token-per-conn: err == nil ==> mytok == old(mytok) + 1 && conn != nil
+
+//@ func (*limitListener).Close
+//@   property C18
+//@   requires LL(l) && mytok >= 0
+//@   modifies l.isClosed, l.counter.*, tok
+//@   ensures  mytok == old(mytok)
+
+// The decrement field of a limitConn holds the bound method l.decrement of
+// the listener that created it (set once in Accept); connOwner names that
+// listener.
+//
+//@ ghost connOwner map[*limitConn]*limitListener
+//@ field limitConn.decrement calls (*limitListener).decrement via connOwner
+//
+//@ pred LC(c *limitConn) = c.Conn != nil && c.serverInfo != nil && connOwner[c] != nil && LL(connOwner[c])
+//
+//@ func (*limitConn).Close
+//@   property C18
+//@   requires LC(c) && (!c.isClosed ==> mytok > 0)
+//@   modifies c.isClosed, connOwner[c].isClosed, connOwner[c].counter.*, tok, mytok
+//@   ensures  released-once: !old(c.isClosed) ==> c.isClosed && mytok == old(mytok) - 1
+//@   ensures  no-second-release: old(c.isClosed) ==> mytok == old(mytok) && err != nil
+
+//@ func New
+//@   property C18 C20
+//@   ensures err == nil ==> l != nil && l.counter != nil && K(l.counter) && l.counter.current == 0 &&
+//@                          l.counter.isAccepting && l.counterCond != nil && l.counterCond.L != nil
+//@   ensures err == nil ==> c != nil && l.counter.stop == c.Stop && l.counter.resume == c.Resume
+//@   ensures (c == nil || c.Stop == 0 || c.Resume > c.Stop) ==> err != nil
